@@ -118,3 +118,59 @@ Proof.
   split; [reflexivity|]. intros d k Hd Hk. cbn in Hd.
   destruct Hd as [<-|[<-|[]]]; cbn in Hk; repeat (destruct Hk as [<-|Hk]; [split; reflexivity|]); contradiction.
 Qed.
+
+(* ================= the concrete routing trie under removal =================
+   The theorems above treat the routing trie as an abstract map of binding keys. The ones below are
+   about the trie itself (Model/Trie.v, the structure C01 / C02 / C16 are proved on) and the model of
+   path.delRule / path.alive (Model/TrieDel.v: recurse into every literal and variable child, drop a
+   child that lost something and is no longer alive, remove the method's per-verb and '*' bindings). *)
+From Larking Require Import Model.Lexer Model.Trie Model.Match Model.TrieDel Spec.Grammar Spec.Route
+  Proofs.MatchProofs Proofs.TrieProofs Proofs.RoutingProofs Proofs.OrderProofs Proofs.DelProofs.
+
+(* removing a method is the same as never having registered it: the trie built from a list of
+   bindings, with one method removed, answers every request -- any verb, any path: same binding, same
+   captures, or the same refusal -- exactly as the trie built from the other methods' bindings alone
+   (which is itself accepted). No stale route, no lost route, and a less specific rule of another
+   method takes over where the removed method's rule used to win. *)
+Theorem C11_removal_is_never_registering :
+  forall isLetter isNumber resolves body_ok resp_ok okconv name l nd,
+  Sane isLetter isNumber -> NoDup l -> Distinct isLetter isNumber resolves l ->
+  build_from isLetter isNumber resolves body_ok resp_ok empty_node l = Ok nd ->
+  exists nd0, build_from isLetter isNumber resolves body_ok resp_ok empty_node (filter (keepL name) l) = Ok nd0 /\
+    forall verb p, Match.route okconv isLetter isNumber (remove_method name nd) verb p =
+                   Match.route okconv isLetter isNumber nd0 verb p.
+Proof. exact removal_is_never_registering. Qed.
+Print Assumptions C11_removal_is_never_registering.
+
+(* on ANY trie (no invariant needed): after removal no request is routed to the removed method *)
+Theorem C11_removed_never_served : forall isLetter isNumber okconv name nd verb p m caps,
+  Match.route okconv isLetter isNumber (remove_method name nd) verb p = Ok (m, caps) -> m_id m <> name.
+Proof. exact route_after_del_not_removed. Qed.
+Print Assumptions C11_removed_never_served.
+
+(* what is stored after removal is exactly what was stored for other methods, at the same places *)
+Theorem C11_removal_content : forall name nd es key m, Uq nd ->
+  ((exists i', info_at (fst (del_rule name nd)) es = Some i' /\ stored i' key m) <->
+   (exists i, info_at nd es = Some i /\ stored i key m /\ m_id m <> name)).
+Proof. exact del_rule_content. Qed.
+Print Assumptions C11_removal_content.
+
+(* delRule's boolean: true iff the method had a binding somewhere in the trie *)
+Theorem C11_removal_reports : forall name nd, snd (del_rule name nd) = true <-> ~ NoName name nd.
+Proof. exact del_rule_ok_iff. Qed.
+Print Assumptions C11_removal_reports.
+
+(* over every life cycle -- registrations (failing ones included) and removals in any order, from the
+   empty mux -- routing never panics nor runs out of fuel, and no dead node is left behind: every node
+   of the trie other than the root is alive and has a binding at or below it *)
+Theorem C11_lifecycle_total : forall isLetter isNumber resolves body_ok resp_ok okconv ops verb p,
+  MatchProofs.benign (Match.route okconv isLetter isNumber
+                        (run_ops isLetter isNumber resolves body_ok resp_ok empty_node ops) verb p).
+Proof. exact lifecycle_route_total. Qed.
+Print Assumptions C11_lifecycle_total.
+
+Theorem C11_lifecycle_no_dead_nodes : forall isLetter isNumber resolves body_ok resp_ok ops es n,
+  Reach (run_ops isLetter isNumber resolves body_ok resp_ok empty_node ops) es n -> es <> [] ->
+  alive n = true /\ HasB n.
+Proof. exact lifecycle_no_dead. Qed.
+Print Assumptions C11_lifecycle_no_dead_nodes.
